@@ -13,6 +13,11 @@ V: Trace_Pairing (Conf on the picked providers): real list = PairingFor(eff, tab
    effective total itself, derives r = (v mod total) + 1 and applies the interval rule; a wrong total or a wrong
    interval in the code desynchronises the picks.  Slots without mix filters decide (PickConfPlain); configurations
    with mix filters are compared as drift (PickConfAll).
+Dust stage: configurations whose scores are tiny integers (stakes 1..3 ulava, provider geolocation AS vs policy USC/USE =>
+   geo score 1), pure and mixed with one ordinary provider, 2 slots, 130/220 epoch hashes: every draw lands on or next to an
+   interval boundary, so an off-by-one in the draw or in the hit test changes the pick at once (Conf), and TLC checks on the
+   real picks that every eligible provider with positive stake has been paired once its miss probability is < e^-14
+   (NoZeroChance: the real-code witness of "no zero chance").
 """
 import json
 import os
@@ -43,11 +48,64 @@ def _picks(r):
     return len(r["list"]) if (not r["err"] and 0 < len(r["list"]) < elig) else 0
 
 
-def _check(ctx, cfgs, tag, epochs):
+def _check(ctx, cfgs, tag, epochs, only=None):
     L = lib()
-    tpath, rows = L.drive(ctx, cfgs, tag, env={"VERIF_EPOCHS": epochs})
+    env = {"VERIF_EPOCHS": epochs}
+    if only is not None:
+        env["VERIF_ONLY"] = only      # rebuild the whole batch (same accounts / hashes), query one configuration
+    tpath, rows = L.drive(ctx, cfgs, tag, env=env)
     bad = L.validate(ctx, tpath, "Trace_Pairing_c40.cfg", tag)
     return tpath, rows, bad
+
+
+def _report(ctx, L, cfgs, rows, bad, epochs, tag):
+    """Re-execute the suspected configuration in a fresh process; report only if it fails again."""
+    cfg, r = L.cfg_of_line(rows, cfgs, bad["line"])
+    if cfg is None:
+        raise vlib.Infra("violating line %d has no configuration" % bad["line"])
+    _, rows2, bad2 = _check(ctx, cfgs, "repro_" + tag, epochs, only=cfg["id"])
+    if bad2 is None:
+        raise vlib.Infra("counter-example not reproduced on configuration %s (%s)" % (cfg["id"], bad["inv"]))
+    r2 = rows2[bad2["line"] - 1]
+    small = any(t["stake"] <= 3 for t in r2["tab"] if t["ok"])
+    cls = L.features(r2) + ("-dust" if small else "")
+    table = json.dumps([[t["p"], t["stake"], t["geo"], t["ok"]] for t in r2["tab"]])
+    if bad2["inv"] == "NoZeroChance":
+        ctx.violation("zero-chance@%s" % cls,
+                      "an eligible provider with positive stake was never paired although its chance per epoch is >= 14/epochs: "
+                      "cfg=%s after epoch=%s table=%s policy geo=%s" % (cfg["id"], r2["epoch"], table, r2["eff"]["geo"]),
+                      {"configs": cfgs, "only": cfg["id"], "epochs": epochs})
+    else:
+        ctx.violation("pick-differs-from-interval-rule@%s" % cls,
+                      "real pairing list %s is not what the interval rule yields for the same PRNG outputs: cfg=%s epoch=%s table=%s" % (
+                          r2["list"], cfg["id"], r2["epoch"], table),
+                      {"configs": cfgs, "only": cfg["id"], "epochs": epochs})
+
+
+def _dust_stage(ctx, L):
+    """Scores that are tiny integers (stake 1..3 ulava x geo score 1): draws land on interval boundaries in every epoch, and
+    over enough epoch hashes every provider must actually be paired (NoZeroChance, judged by TLC on the real picks)."""
+    epochs = ctx.pick(130, 220)
+    cfgs = L.gen_configs(ctx, ctx.pick("Pairing_gend.cfg", "Pairing_gendt.cfg"), "gend")
+    tpath, rows, bad = _check(ctx, cfgs, "dust", epochs)
+    qs = [r for r in rows if r["ev"] == "q" and not r["mid"] and not r["err"]]
+    pure = [c for c in cfgs if all(p["stake"] <= 3 for p in c["prov"])]
+    reached = 0
+    for c in pure:
+        n = sum(1 for r in qs if r["cfg"] == c["id"])
+        W = sum(p["stake"] for p in c["prov"])
+        if all(n * p["stake"] >= 14 * W for p in c["prov"]):
+            reached += 1
+    dust_picks = sum(len(r["list"]) for r in qs)
+    ctx.cov["c40_dust"] = {"configs": len(cfgs), "pure_dust_configs": len(pure), "epochs": epochs, "picks_compared": dust_picks,
+                           "configs_where_every_provider_reached_the_must_be_seen_threshold": reached}
+    if reached < ctx.pick(2, 6) or dust_picks < ctx.pick(800, 4000):
+        raise vlib.Infra("vacuous dust coverage: %s" % ctx.cov["c40_dust"])
+    if bad:
+        _report(ctx, L, cfgs, rows, bad, epochs, "dust")
+        return False
+    ctx.cov["traces_validated_against_impl"] += len(cfgs)
+    return True
 
 
 def run(ctx):
@@ -82,17 +140,9 @@ def run(ctx):
     if npicks < ctx.pick(150, 1500):
         raise vlib.Infra("vacuous coverage: only %d weighted draws compared" % npicks)
     if bad:
-        cfg, r = L.cfg_of_line(rows, cfgs, bad["line"])
-        if cfg is None:
-            raise vlib.Infra("violating line %d has no configuration" % bad["line"])
-        _, rows2, bad2 = _check(ctx, [cfg], "repro", epochs)
-        if bad2 is None:
-            raise vlib.Infra("counter-example not reproduced on configuration %s" % cfg["id"])
-        r2 = rows2[bad2["line"] - 1]
-        ctx.violation("pick-differs-from-interval-rule@%s" % L.features(r2),
-                      "real pairing list %s is not what the interval rule yields for the same PRNG outputs: cfg=%s epoch=%s table=%s" % (
-                          r2["list"], cfg["id"], r2["epoch"], json.dumps([[t["p"], t["stake"], t["geo"], t["ok"]] for t in r2["tab"]])),
-                      {"configs": [cfg]})
+        _report(ctx, L, cfgs, rows, bad, epochs, "sim")
+        return
+    if not _dust_stage(ctx, L):
         return
     ctx.cov["traces_validated_against_impl"] += len(cfgs)
     ctx.cov["trace_events"] = len(rows)
@@ -106,8 +156,8 @@ def replay(ctx, path):
     L = lib()
     with open(path) as f:
         obj = json.load(f)
-    for cfg in obj["configs"]:
-        _, rows, bad = _check(ctx, [cfg], "replay", 10)
-        if bad:
-            ctx.violation("pick-differs-from-interval-rule@%s" % L.features(rows[bad["line"] - 1]),
-                          "replayed configuration still deviates from the interval rule", {"configs": [cfg]})
+    _, rows, bad = _check(ctx, obj["configs"], "replay", obj.get("epochs", 10), only=obj.get("only"))
+    if bad:
+        ctx.violation("%s@%s" % ("zero-chance" if bad["inv"] == "NoZeroChance" else "pick-differs-from-interval-rule",
+                                 L.features(rows[bad["line"] - 1])),
+                      "replayed configuration still deviates (%s)" % bad["inv"], obj)
